@@ -17,7 +17,8 @@ RULE = ("seeded generator over byte strings: all 256 values, line lengths at m-1
         "final newline, leading '.', delimiter byte; ops c01.reader (real CatFile), c01.pipe (reader→server Read→client "
         "Write), c01.e2e (dcat binary). non-trivial = model took a split / no-final-newline / empty-line branch or a finding signature")
 
-PROJ = {"c01.reader": lambda s: "".join(p.split(":", 1)[1] for p in s.split(",") if ":" in p).replace("-", "") or "-"}
+PROJ = {"c01.pipe": lambda s: s.rsplit(";", 1)[-1],
+        "c01.reader": lambda s: "".join(p.split(":", 1)[1] for p in s.split(",") if ":" in p).replace("-", "") or "-"}
 
 
 def content(rng, m, hostile):
@@ -79,3 +80,6 @@ def gen(rng, budget, tier):
     # lines around the 32 KiB transport buffer (e2e, default-sized MaxLineLength)
     for n in [32766, 32767, 32768, 40000, 70000]:
         yield f"c01.e2e 1048576 {hexs(b'a' * n + b'%' + bytes([10]) + b'tail' + bytes([10]))}"
+    # an unterminated last line that ends exactly on a transport chunk boundary (the message delimiter arrives alone)
+    for pre, n in [(b"", 32768), (b"one\ntwo\n", 32768), (b"", 65536), (b"x\n", 32767), (b"", 98304)]:
+        yield f"c01.e2e 1048576 {hexs(pre + b'a' * n)}"
